@@ -19,6 +19,9 @@ available - cursor >= len (shared with C12); set_limit keeps limit within [curso
 (d) every set_tc(true) in server::* is on a UDP-only path (the Truncation arm under transport != Tcp, or the RRL slip
 arm behind subject_to_rrl), and is preceded by clear_rrs; the TCP Truncation arm answers SERVFAIL with AA clear instead;
 (e) in-bailiwick referral glue is mandatory (its Truncation error propagates), all other additional data is optional.
+(c') the Writer invariant 12 <= rr_start <= cursor <= available <= limit <= len(octets) is established by Writer::new and
+re-established by every single store to those fields (E5 at each store; finish_with_mac under the reservation-accounting
+lemma), so the finished length (cursor) never exceeds the limit in force.
 Not decided: identity of the UDP and TCP responses when the answer fits (needs two executions).
 """
 ASSUMPTIONS = ['every CFG path is assumed feasible']
@@ -45,6 +48,12 @@ def transport_param_is_received(F, fn, idx, depth=0):
 
 
 def check(R, F):
+    from rules import e5, writer_inv
+    _S = e5.make_summary(F)
+    writer_inv.check(R, F, _S)
+    e5.check_pres(R, F, _S, 'writer-invariant.pre', only=("message::writer::Writer::<'a>::write", "message::writer::Writer::<'a>::write_u16"))
+    R.floor('writer-invariant.pre', 5)
+
     hm = F.fn(HANDLE_MESSAGE)
     # ---- (a)
     wn = calls_in(hm, W + 'new')
